@@ -26,14 +26,18 @@ ENCODED = ["luna/gateware/interface/utmi.py: UTMIInterfaceMultiplexer", "luna/ga
 ASSUMPTIONS = [
     "legal host: slotted transactions with fixed packet timing (32-cycle slots), host ACKs only data the device sent, no lone "
     "handshakes, no SET_ADDRESS request in the script (device stays at address 0; address changes are C08)",
-    "PHY tx_ready is free every cycle, but the device's packet must have ended two cycles before the host's ACK slot "
+    "legal host: no SETUP token to a non-control endpoint (observation, not asserted: the control endpoint's setup decoder does "
+    "not look at the token's endpoint number, so such a SETUP would be decoded and ACKed by endpoint 0)",
+    "PHY tx_ready is free every cycle, but the device's transmission must have ended two cycles before the end of the slot "
     "(bounded stalls) -- otherwise the fixed-slot host would collide with it",
     "full speed over UTMI, line idle (J), VBUS present: no reset/chirp activity (C19)",
     "EP1 stream always offers a symbolic constant byte; EP2 consumer always ready; EP3 signal is a symbolic constant",
     "the transmit CRC reference is computed with the repo's own step function (C30 proves it equal to the standard; C03 "
     "checks the generator against an independent reference)",
 ]
-BOUNDS = "mux: all inputs, K=1.  device: BMC from reset over N = 3 symbolic transactions (quick and thorough; thorough adds N = 4 with tx_ready = 1)"
+BOUNDS = "mux: all inputs, K=1.  device: BMC from reset over N = 2 and N = 3 scripted transactions (cubes over SETUP / IN / OUT " \
+         "per slot, thorough also corrupted / unacknowledged / idle variants, and N = 4 with tx_ready = 1 as best effort); the " \
+         "CRC16 clause is decided with tx_ready = 1 in every cube and with tx_ready free for single IN transactions"
 OUTSIDE = "sessions longer than N transactions; internal one-transmitter-at-a-time (observed through packet well-formedness only); " \
           "reset-sequencer chirps"
 
@@ -93,7 +97,7 @@ class TxHarness(Harness):
         self.v = {n: self.viol(n) for n in ["pid", "handshake_len", "data_crc", "continuous", "solicited", "early",
                                             "during_rx", "one_per_transaction"]}
         self.c = {n: self.cover(n) for n in ["ep1_data", "ep3_data", "ep2_ack", "ep0_data", "stalled_byte", "nak"]}
-        self.a = {n: self.assume(n) for n in ["legal", "no_hsk", "no_set_address", "bounded_stall"]}
+        self.a = {n: self.assume(n) for n in ["legal", "no_hsk", "no_set_address", "no_setup_other_ep", "bounded_stall"]}
 
     def elaborate(self, platform):
         m = Module()
@@ -110,12 +114,14 @@ class TxHarness(Harness):
         m.d.comb += [st.valid.eq(1), st.payload.eq(self.ep1_byte), st.last.eq(0),
                      self.eps["out"].stream.ready.eq(1), self.ep3.signal.eq(self.ep3_value)]
         n = self.nslots
-        nohsk, noaddr = Const(1), Const(1)
+        nohsk, noaddr, nosetup = Const(1), Const(1), Const(1)
         for i in range(n):
             d = h.data[i]
             nohsk = nohsk & (h.kind[i] != KIND_HSK)
+            nosetup = nosetup & ~((h.kind[i] == KIND_SETUP) & (h.ep[i] != 0))
             noaddr = noaddr & ~((h.kind[i] == KIND_SETUP) & (d[5:7] == 0) & (d[8:16] == 5))
         m.d.comb += [self.a["legal"].eq(h.legal), self.a["no_hsk"].eq(nohsk), self.a["no_set_address"].eq(noaddr),
+                     self.a["no_setup_other_ep"].eq(nosetup),
                      # PHY stalls (tx_ready low) never stretch a transmission into the next transaction
                      self.a["bounded_stall"].eq(~(u.tx_valid & (h.t >= h.slot_len - 2)))]
 
